@@ -10,6 +10,9 @@ TOPOLOGIES = [
     "group:2 numa:2 core:2 pu:1",
     "pack:2 l3:2 core:2 pu:2",
     "numa:3 core:3 pu:1",
+    # several Group levels, the deepest one right above the PUs (gp_index lookup over HWLOC_TYPE_DEPTH_MULTIPLE)
+    "group:2 group:3 pu:2",
+    "pack:2 group:2 group:2 pu:2",
 ]
 NAMES = ["lat", "bw", "hops", "x", "NUMALatency", "-"]
 
@@ -210,43 +213,59 @@ def gen_case(rng, k, idx, nops=None):
 
 
 def _synth_layout(topo):
-    """-> (number of PUs, {type name: PUs per object}) for the synthetic strings used here
-    (objects of a level are numbered left to right, PUs of object i are [i*w, (i+1)*w))"""
+    """-> (number of PUs, {type name: [set of PUs of each object of that type, in table order]}) for the
+    synthetic strings used here (levels top to bottom, objects of a level left to right; a type name that
+    occurs on several levels, e.g. group, lists the upper level first, like the harness object table)"""
     ar = [(t.split(":")[0], int(t.split(":")[1])) for t in topo.split()]
-    width = {}
-    w = 1
-    for name, n in reversed(ar):
-        width[name] = w
-        w *= n
-    return w, width
+    npu = 1
+    for _, n in ar:
+        npu *= n
+    objs = {}
+    count = 1
+    for name, n in ar:
+        count *= n
+        w = npu // count
+        objs.setdefault(name, [])
+        for i in range(count):
+            objs[name].append(set(range(i * w, (i + 1) * w)))
+    return npu, objs
 
 
 def gen_follow_case(rng, k):
     """the history class 'structure over mixed (or equal) types, restrict that removes an object
-    which is not last, refresh, then a second re-resolution (restrict / dup / export-import), get':
-    the identity arrays (indexes, different_types) must have been compacted consistently"""
-    topo = rng.choice(["numa:4 core:2 pu:2", "pack:2 numa:2 core:2 pu:1", "pack:2 l3:2 core:2 pu:2", "numa:2 pack:2 core:2 pu:1"])
-    npu, width = _synth_layout(topo)
-    tnum = {"core": k.CORE, "pu": k.PU, "pack": k.PACKAGE, "l3": k.L3}
-    avail = [n for n in ("core", "pu", "pack", "l3") if n in width]
-    mixed = rng.random() < 0.8
-    names = rng.sample(avail, min(len(avail), rng.choice([2, 3]))) if mixed else [rng.choice(["core", "pu"])]
-    nb = rng.choice([3, 4, 4, 5, 6])
+    which is not last (or nothing), refresh, then a second re-resolution (restrict / dup / export-import),
+    get': the identity arrays (indexes, different_types) must have been compacted consistently and every
+    surviving object must be found again, on whichever level of its type it lives"""
+    topo = rng.choice(["numa:4 core:2 pu:2", "pack:2 numa:2 core:2 pu:1", "pack:2 l3:2 core:2 pu:2", "numa:2 pack:2 core:2 pu:1",
+                       "group:2 group:3 pu:2", "pack:2 group:2 group:2 pu:2", "group:2 group:3 pu:2"])
+    npu, objs = _synth_layout(topo)
+    tnum = {"core": k.CORE, "pu": k.PU, "pack": k.PACKAGE, "l3": k.L3, "group": k.GROUP}
+    avail = [n for n in ("core", "pu", "pack", "l3", "group") if n in objs]
+    mixed = rng.random() < 0.7
+    if mixed:
+        names = rng.sample(avail, min(len(avail), rng.choice([2, 3])))
+    else:
+        names = [rng.choice([n for n in ("core", "pu", "group", "group") if n in objs])]
+    nb = rng.choice([2, 3, 4, 4, 5, 6])
     # pick objects with pairwise disjoint PU ranges so that removing one keeps the others
     chosen, used = [], set()
     tries = 0
-    while len(chosen) < nb and tries < 200:
+    while len(chosen) < nb and tries < 300:
         tries += 1
         n = rng.choice(names)
-        cnt = npu // width[n]
-        i = rng.randrange(cnt)
-        pus = set(range(i * width[n], (i + 1) * width[n]))
+        i = rng.randrange(len(objs[n]))
+        if n == "group" and rng.random() < 0.7:
+            # prefer the deepest Group level
+            deepest = min(len(x) for x in objs[n])
+            cand = [j for j, x in enumerate(objs[n]) if len(x) == deepest]
+            i = rng.choice(cand)
+        pus = objs[n][i]
         if pus & used:
             continue
         used |= pus
         chosen.append((n, i, pus))
     nb = len(chosen)
-    if nb < 3:
+    if nb < 2:
         return ["topo " + topo]
     lines = ["topo " + topo]
     kind = rng.choice([1, 2]) | rng.choice([4, 8, 32])
@@ -255,11 +274,14 @@ def gen_follow_case(rng, k):
                                           " ".join(str(100 * (i // nb + 1) + i % nb) for i in range(nb * nb))))
     lines.append("commit 0 0")
     full = (1 << npu) - 1
-    victim = rng.randrange(0, nb - 1)          # never the last one
     mask = full
-    for pu in chosen[victim][2]:
-        mask &= ~(1 << pu)
-    lines.append("restrict 0x%x 0" % mask)
+    victim = None
+    if nb >= 3 and rng.random() < 0.7:
+        victim = rng.randrange(0, nb - 1)          # never the last one
+        for pu in chosen[victim][2]:
+            mask &= ~(1 << pu)
+    first = rng.choice(["restrict", "restrict", "dup", "xml"]) if victim is None else "restrict"
+    lines.append("restrict 0x%x 0" % mask if first == "restrict" else first)
     lines.append(rng.choice(["get all 0 0 0 8", "get all 0 0 0 8", "refresh", "get name mixed 0 0 2"]))
     for _ in range(rng.choice([1, 1, 2])):
         ev = rng.choice(["restrict-nothing", "restrict-other", "dup", "xml", "dup", "restrict-nothing"])
@@ -274,6 +296,47 @@ def gen_follow_case(rng, k):
             lines.append("restrict 0x%x 0" % mask)
         else:
             lines.append(ev)
+        lines.append("get all 0 0 0 8")
+    return lines
+
+
+def gen_list_case(rng, k):
+    """list surgery: several committed structures, release_remove of the first / a middle / the LAST
+    one, then further adds and gets (and dup / export-import / refresh in between): first_dist /
+    last_dist / prev / next must stay consistent for the next commit"""
+    topo = rng.choice(["numa:4 core:2 pu:2", "pack:2 numa:2 core:2 pu:1", "group:2 group:3 pu:2"])
+    lines = ["topo " + topo]
+    types = [k.PU, k.NUMA] + ([k.CORE] if "core" in topo else [k.GROUP]) + ([k.PACKAGE] if "pack" in topo else [])
+    slot = [0]
+
+    def add(name):
+        t = rng.choice(types)
+        nb = rng.choice([2, 2, 3]) if t != k.PACKAGE and t != k.NUMA else 2
+        st = rng.randrange(4)
+        h = slot[0] % 8
+        ls = ["create %d %s %d 0" % (h, name, rng.choice([1, 2]) | rng.choice([4, 8, 32])),
+              "values %d 0 %d %s %s" % (h, nb, " ".join("%d:%d" % (t, st + i) for i in range(nb)),
+                                        " ".join(str(100 * (i // nb + 1) + i % nb + 1000 * slot[0]) for i in range(nb * nb))),
+              "commit %d 0" % h]
+        slot[0] += 1
+        return ls
+    cnt = rng.choice([2, 2, 3, 3, 4])
+    for i in range(cnt):
+        lines += add("s%d" % i)
+    for _ in range(rng.choice([1, 2, 3])):
+        if cnt == 0:
+            lines += add("r%d" % slot[0])
+            cnt += 1
+        lines.append("get all 0 0 0 8")
+        ev = rng.choice(["last", "last", "first", "mid", "last"])
+        victim = cnt - 1 if ev == "last" else 0 if ev == "first" else rng.randrange(cnt)
+        lines.append("rr %d" % victim)
+        cnt -= 1
+        if rng.random() < 0.3:
+            lines.append(rng.choice(["dup", "xml", "refresh", "get name s0 0 0 2"]))
+        for _ in range(rng.choice([1, 1, 2])):
+            lines += add("t%d" % slot[0])
+            cnt += 1
         lines.append("get all 0 0 0 8")
     return lines
 
